@@ -11,6 +11,7 @@
 //!               al = block_on(lock_async()) (+cs, unlock)   ap = create the lock future if the
 //!               thread has none, poll it ONCE with a counting waker (+cs, unlock if Ready)
 //!               ad = drop the thread's pending future (no-op if none)
+//!               yw = if a future is pending: yield (self-unpark) until its waker fired (<= 300 times)
 //! ops (rwlock): r/w, tr/tw, ar/aw, apr/apw, ad  likewise for read / write.
 //! A thread that starts a blocking op (l al r w ar aw) while it owns a pending future first
 //! drops that future (a thread never blocks while it owns a linked waiter node); a pending
@@ -86,6 +87,20 @@ struct CountWaker(AtomicU32);
 impl Wake for CountWaker {
   fn wake(self: Arc<Self>) {
     self.0.fetch_add(1, SeqCst);
+  }
+}
+
+/// op `yw`: while the thread owns a pending future, take yield points (self-unpark, >= 1, <= 300)
+/// until the future's counting waker has fired since the last poll
+fn wait_woken(pending: bool, cw: &CountWaker, seen: u32) {
+  if !pending {
+    return;
+  }
+  for _ in 0..300 {
+    Parker::current().unpark();
+    if cw.0.load(SeqCst) != seen {
+      break;
+    }
   }
 }
 
@@ -166,6 +181,7 @@ fn mutex_body(m: &'static HybridMutex<()>, probe: Arc<Probe>, ops: Vec<String>, 
     let cw = Arc::new(CountWaker(AtomicU32::new(0)));
     let waker = Waker::from(cw.clone());
     let mut fut: Option<Pin<Box<dyn Future<Output = fibre::sync::MutexGuard<'static, ()>> + Send>>> = None;
+    let mut seen = 0u32;
     for op in &ops {
       match op.as_str() {
         "l" | "lh" => {
@@ -195,6 +211,7 @@ fn mutex_body(m: &'static HybridMutex<()>, probe: Arc<Probe>, ops: Vec<String>, 
             fut = Some(Box::pin(m.lock_async()));
           }
           let mut cx = Context::from_waker(&waker);
+          seen = cw.0.load(SeqCst);
           match fut.as_mut().unwrap().as_mut().poll(&mut cx) {
             Poll::Ready(g) => {
               fut = None;
@@ -208,6 +225,7 @@ fn mutex_body(m: &'static HybridMutex<()>, probe: Arc<Probe>, ops: Vec<String>, 
         "ad" => {
           fut = None;
         }
+        "yw" => wait_woken(fut.is_some(), &cw, seen),
         o => panic!("bad mutex op {o}"),
       }
     }
@@ -225,6 +243,7 @@ fn rwlock_body(l: &'static HybridRwLock<()>, probe: Arc<Probe>, ops: Vec<String>
     let cw = Arc::new(CountWaker(AtomicU32::new(0)));
     let waker = Waker::from(cw.clone());
     let mut fut: Option<RwFut> = None;
+    let mut seen = 0u32;
     for op in &ops {
       match op.as_str() {
         "r" | "rh" => {
@@ -280,6 +299,7 @@ fn rwlock_body(l: &'static HybridRwLock<()>, probe: Arc<Probe>, ops: Vec<String>
             fut = Some(if want_r { RwFut::R(Box::pin(l.read_async())) } else { RwFut::W(Box::pin(l.write_async())) });
           }
           let mut cx = Context::from_waker(&waker);
+          seen = cw.0.load(SeqCst);
           let ready = match fut.as_mut().unwrap() {
             RwFut::R(f) => match f.as_mut().poll(&mut cx) {
               Poll::Ready(g) => {
@@ -306,6 +326,7 @@ fn rwlock_body(l: &'static HybridRwLock<()>, probe: Arc<Probe>, ops: Vec<String>
         "ad" => {
           fut = None;
         }
+        "yw" => wait_woken(fut.is_some(), &cw, seen),
         o => panic!("bad rwlock op {o}"),
       }
     }
